@@ -143,6 +143,36 @@ def rule_installed(rep, repo, classes, rule, tier, base_configs):
                   "options computes %s (%s)" % (
                       cfg, changed, show(f1, 200), show(f2, 200), ph),
                   loc=loc, instance=cfg)
+      # ... and the same gradient (straight-through surrogates are chosen
+      # from the options too)
+      try:
+        g1 = piecewise_derivative(out1.term)
+        g2 = piecewise_derivative(d.term)
+        pts = sorted({v for sg in (g1, g2) for s_ in sg for v in s_[:2]
+                      if v is not None})
+        regions = list(zip([None] + pts, pts + [None]))
+        bad_g = None
+        for lo_, hi_ in regions:
+          def at(segs):
+            for (sl, sh, dd, unk) in segs:
+              if (sl is None or (lo_ is not None and lo_ >= sl)) and (
+                  sh is None or (hi_ is not None and hi_ <= sh)):
+                return dd
+            return None
+          d1_, d2_ = at(g1), at(g2)
+          if d1_ is not None and d2_ is not None and not (
+              d1_ == d2_ or equal_mod_finite(d1_, d2_)):
+            bad_g = (lo_, hi_, d1_, d2_)
+            break
+        rep.check(bad_g is None, rule, unit,
+                  "stale-gradient-after-adjustment",
+                  "%s: on (%s, %s) d(output)/dx is %s, for the directly "
+                  "constructed quantizer %s" % ((cfg,) + (tuple(
+                      show(v, 120) if hasattr(v, "atoms") else v
+                      for v in bad_g) if bad_g else (None,) * 4)), loc=loc,
+                  instance=cfg)
+      except AnalysisError:
+        pass      # gradients of this configuration are outside the model
       for meth in ("min", "max"):
         if ci.find_method(meth)[1] is None:
           continue
@@ -355,6 +385,15 @@ def run(rep, repo, tier):
   if n7 < 40:
     raise AnalysisError("instance-count only %d installed-quantizer "
                         "configurations" % n7)
+  from .c04 import rule_late_data_format
+  n10 = rule_late_data_format(rep, repo, [
+      ("quantized_bits", dict(bits=4, integer=1, alpha="auto")),
+      ("quantized_bits", dict(bits=4, integer=1, alpha="auto_po2")),
+      ("quantized_linear", dict(bits=4, integer=1, alpha="auto")),
+      ("quantized_linear", dict(bits=4, integer=1, alpha="auto_po2"))],
+                              "R10")
+  if n10 < 8:
+    raise AnalysisError("instance-count only %d data-format scenarios" % n10)
   from .c04 import rule_call_is_pure
   n9 = rule_call_is_pure(rep, repo, [
       ("quantized_bits", dict(bits=4, integer=1, alpha="auto")),
